@@ -322,6 +322,12 @@ func (fc *fnCtx) instr(in ssa.Instruction) {
 		if g.lite && fc.parent == nil {
 			// typestate: `order L: A before return nil`: a return with a nil error needs a preceding successful A
 			for _, o := range fc.topOrders() {
+				if o.after == "return" {
+					// `order L: A before return`: every return of the function needs a preceding successful A
+					g.oblige(obligation{name: fmt.Sprintf("order:%s:%s", fnKeyQ(fc.fn), o.label), kind: "order", guard: fc.curR,
+						cond: fmt.Sprintf("(= %s 1)", sel(fc.curH["GL"], evRef, evIndex(o.before))), pos: g.w.posString(x.Pos())})
+					continue
+				}
 				if o.after != "return nil" || len(vs) == 0 {
 					continue
 				}
